@@ -121,6 +121,32 @@ def collectAncestors (parents : Nat → List Nat) (common : List Nat) : Nat → 
     if common.contains e ∨ seen.contains e then collectAncestors parents common fuel queue seen
     else collectAncestors parents common fuel (queue ++ parents e) (seen ++ [e])
 
+/-- `_collect_ancestors(store, heads, common, shallow)` with the parent source as a parameter (`parentsOf` is the
+object store, or the commit-graph falling back to the store): a commit in `shallow` (the OTHER side's boundary in
+upload-pack / a depth fetch from a full repository) is reported but never expanded — the `e in shallow` test comes
+before EITHER parent source is asked. -/
+def collectAncestorsSh (parentsOf : Nat → List Nat) (common shallow : List Nat) : Nat → List Nat → List Nat → List Nat
+  | 0, _, seen => seen
+  | _ + 1, [], seen => seen
+  | fuel + 1, e :: queue, seen =>
+    if common.contains e ∨ seen.contains e then collectAncestorsSh parentsOf common shallow fuel queue seen
+    else if shallow.contains e then collectAncestorsSh parentsOf common shallow fuel queue (seen ++ [e])
+    else collectAncestorsSh parentsOf common shallow fuel (queue ++ parentsOf e) (seen ++ [e])
+
+/-- the BROKEN variant in which the shallow test guards only the object-load branch: a graph hit walks below
+the boundary.  Not what the code does; kept for the negation witness. -/
+def collectAncestorsShGraphFirst (graph : Nat → Option (List Nat)) (store : Nat → List Nat) (common shallow : List Nat) :
+    Nat → List Nat → List Nat → List Nat
+  | 0, _, seen => seen
+  | _ + 1, [], seen => seen
+  | fuel + 1, e :: queue, seen =>
+    if common.contains e ∨ seen.contains e then collectAncestorsShGraphFirst graph store common shallow fuel queue seen
+    else match graph e with
+      | some ps => collectAncestorsShGraphFirst graph store common shallow fuel (queue ++ ps) (seen ++ [e])
+      | none =>
+        if shallow.contains e then collectAncestorsShGraphFirst graph store common shallow fuel queue (seen ++ [e])
+        else collectAncestorsShGraphFirst graph store common shallow fuel (queue ++ store e) (seen ++ [e])
+
 /-- `GraphTraversalReachability.get_reachable_commits(heads, exclude)` -/
 def traversalReach (parents : Nat → List Nat) (fuel : Nat) (heads exclude : List Nat) : List Nat :=
   collectAncestors parents exclude fuel heads []
